@@ -86,6 +86,7 @@ func main() {
 		os.Exit(2)
 	}
 	os.Unsetenv("GOWORK")
+	os.Setenv("RQCHECK_VERIF", *verif)
 	ff, err := core.LoadFindings(filepath.Join(*verif, "known_findings.json"))
 	if err != nil {
 		fail(ids, "known_findings.json unreadable: "+err.Error())
